@@ -127,9 +127,22 @@ Definition c11_step (V : view) (ob : obs) : clauses :=
 Definition mon_C11 := mon_run (stateless c11_step) tt.
 
 (* ================= C12 ================= *)
-Definition c12_step (V : view) (ob : obs) : clauses :=
+(* ghost: the amounts written off into each distribution, summed by the monitor itself from the accepted WriteOff instructions
+   (independent of the uncollectible figure the account records) *)
+Definition written_into (g : list (key * N)) (k : key) : N := sumN (map (fun '(k', a) => if key_eqb k' k then a else 0) g).
+Definition c12_step (g : list (key * N)) (V : view) (ob : obs) : list (key * N) * clauses :=
   let '(o, ok, post) := ob in
-  if negb (ok && is_tx o) then [] else
+  if negb (ok && is_tx o) then (g, []) else
+  let g' := match single_rd o with Some (RWriteOff amount _, ms, _) => (nthk ms 4, amount) :: g | _ => g end in
+  (g',
+  match single_rd o with
+  | Some (RFinalizeRewards, ms, _) =>
+      match dist_of (post_of V post (nthk ms 1)) with
+      | Some (d, _) => if hash_eqb (d_rewards_root d) null_hash
+                       then chk (d_total_debt d - written_into g (nthk ms 1) =? 0) (nthk ms 1) 4 (d_total_debt d - written_into g (nthk ms 1))
+                       else []
+      | None => [] end
+  | _ => [] end ++
   flat_map (fun '(k, a) =>
     match dist_of a, dist_of (vget V k) with
     | Some (d, _), Some (d0, _) =>
@@ -141,8 +154,8 @@ Definition c12_step (V : view) (ob : obs) : clauses :=
         (if d_rewards_final d && hash_eqb (d_rewards_root d) null_hash then
           chk ((collectible d =? 0) && (d_prepaid_2z d =? 0) && (d_swept_2z d =? 0)) k 3 (collectible d + d_prepaid_2z d + d_swept_2z d)
         else [])
-    | _, _ => [] end) post.
-Definition mon_C12 := mon_run (stateless c12_step) tt.
+    | _, _ => [] end) post).
+Definition mon_C12 := mon_run c12_step [].
 
 (* ================= C01 ================= *)
 (* ghost: settled leaves (distribution, index, paid?, amount) *)
@@ -398,6 +411,12 @@ Definition c15_step (clk : N) (V : view) (ob : obs) : N * clauses :=
             chk ((d_prepaid_2z d1 =? waiting) && (tok_amount (post_of V post tk) =? waiting) &&
                  ((waiting =? 0) || (tok_amount (post_of V post ata) =? 0))) dk 12 waiting
         | _, _, _ => [(dk, 13, 0)] end
+    | Some (RConfigureProgram (RSBurnRate l ti tl ini), ms, _) =>
+        (* "the community burn rate ... in force at that moment": an accepted change of the schedule is in force afterwards *)
+        match config_of (post_of V post (nthk ms 0)) with
+        | Some c1 => chk ((limit (c_burn c1) =? l) && (to_inc (c_burn c1) =? ti) && (to_lim (c_burn c1) =? tl) &&
+                          match ini with Some r => next (c_burn c1) =? r | None => true end) (nthk ms 0) 14 l
+        | None => [] end
     | _ => [] end in
   (clk', snap ++ create).
 Definition mon_C15 := mon_run c15_step 0.
@@ -459,7 +478,10 @@ Definition c16_step (V : view) (ob : obs) : clauses :=
                   match contrib_of (vget V k), single_rd o with
                   | Some cr0, Some (RSetRewardsManager _, _, _) | Some cr0, Some (RConfigureContributor _, _, _) => []
                   | Some cr0, _ => chk (contrib_eqb cr0 cr) k 2 0
-                  | None, _ => [] end
+                  (* a record that appears in a transaction starts with no rewards manager, no block and an empty table: only the
+                     contributor manager can assign the first manager *)
+                  | None, _ => chk (key_eqb (cr_manager cr) default_key && negb (cr_blocked cr) &&
+                                    match cr_recipients cr with [] => true | _ => false end) k 13 0 end
      | None => [] end) post ++
   match single_rd o with
   | Some (RConfigureContributor s, ms, t) =>
@@ -834,7 +856,11 @@ Definition c17_step (V : view) (ob : obs) : clauses :=
           chk (lamports (post_of V post rk) =? 0) rk 18 0
       | PConfigureProgram _ =>
           (* reconfiguration never touches a pending request *)
-          flat_map (fun '(k, a) => match request_of (vget V k) with Some _ => chk (acct_eqb (vget V k) a) k 19 0 | None => [] end) post
+          flat_map (fun '(k, a) => match request_of (vget V k) with Some _ => chk (acct_eqb (vget V k) a) k 19 0 | None => [] end) post ++
+          (* ... and never leaves a fee that a deposit could not pay ("fee to sentinel, remainder to requester" needs fee < deposit) *)
+          match ppconfig_of (post_of V post KPpConfig) with
+          | Some c1 => chk ((pc_deposit c1 =? 0) || (pc_fee c1 <? pc_deposit c1)) KPpConfig 21 (pc_fee c1)
+          | None => [] end
       | _ => [] end
   | None => [] end.
 Definition mon_C17 := mon_run (stateless c17_step) tt.
